@@ -201,6 +201,7 @@ static int json_patch_apply_move_copy(struct json_object **res,
 	struct json_object *jfrom;
 	const char *from_s;
 	size_t from_s_len;
+	int insert = 1; /* json_object_array_insert_idx_cb: insert, don't overwrite */
 	int rc;
 
 	if (!json_object_object_get_ex(patch_elem, "from", &jfrom)) {
@@ -265,7 +266,7 @@ static int json_patch_apply_move_copy(struct json_object **res,
 		array_set_cb = json_object_array_move_cb;
 	}
 
-	rc = json_pointer_set_with_array_cb(res, path, from.obj, array_set_cb, &from);
+	rc = json_pointer_set_with_array_cb(res, path, from.obj, array_set_cb, &insert);
 	if (rc)
 	{
 		_set_err(errno, "Failed to set value at path referenced by 'path' field");
